@@ -324,12 +324,13 @@ func (srv *server) lockDuplicatedID(c *client) (oldSession *gmqtt.Session, err e
 		if oldSession != nil {
 			var oldClient *client
 			oldClient = srv.clients[oldSession.ClientID]
-			srv.mu.Unlock()
-			verifYield("lockdup.unlocked")
 			if oldClient == nil {
-				srv.mu.Lock()
+				// keep holding the lock: releasing and re-taking it here would let a second
+				// CONNECT with the same client id pass this check before the first one has registered
 				break
 			}
+			srv.mu.Unlock()
+			verifYield("lockdup.unlocked")
 			// if there is a duplicated online client, close if first.
 			zaplog.Info("logging with duplicate ClientID",
 				zap.String("remote", c.rwc.RemoteAddr().String()),
